@@ -126,6 +126,8 @@ int main(int argc, char **argv)
     int maxfrag = atoi(arg(argc, argv, "maxfrag", "0"));
     int pskke = atoi(arg(argc, argv, "pskke", "0"));     /* resumption by PSK alone (psk_ke): the OpenSSL server allows it and, on the
                                                             second connection, supports no group the client has a share for */
+    int scsv = atoi(arg(argc, argv, "scsv", "0"));       /* RFC 7507: the client (whichever stack) marks its ClientHello as a fallback retry; the
+                                                            server's highest enabled version is the one offered, so the handshake must go on */
     int earlyok = -1, oearly = -1;
     char cert[256], pkey[256], ca[256];
     sslKeys_t *keys = NULL;
@@ -190,6 +192,7 @@ int main(int argc, char **argv)
     }
     if (t13) SSL_CTX_set_ciphersuites(ctx, oname); else SSL_CTX_set_cipher_list(ctx, oname);
     if (pskke) SSL_CTX_set_options(ctx, SSL_OP_ALLOW_NO_DHE_KEX);
+    if (scsv && !mxclient) SSL_CTX_set_mode(ctx, SSL_MODE_SEND_FALLBACK_SCSV);
     if (pad > 0) SSL_CTX_set_block_padding(ctx, (size_t) pad);
     /* maxfrag=512|1024|2048|4096: RFC 6066 max_fragment_length, asked for by whichever side is the client */
     if (maxfrag > 0 && !mxclient) SSL_CTX_set_tlsext_max_fragment_length(ctx, maxfrag == 512 ? TLSEXT_max_fragment_length_512 : maxfrag == 1024 ? TLSEXT_max_fragment_length_1024 : maxfrag == 2048 ? TLSEXT_max_fragment_length_2048 : TLSEXT_max_fragment_length_4096);
@@ -222,6 +225,7 @@ int main(int argc, char **argv)
         if (pad > 0) opts.tls13BlockSize = pad;
         if (maxfrag > 0 && mxclient) opts.maxFragLen = maxfrag;
         if (early > 0 && !mxclient) opts.tls13SessionMaxEarlyData = 16384;
+        if (scsv && mxclient) opts.fallbackScsv = 1;
         if (gid) { uint16_t g = (uint16_t) gid; matrixSslSessOptsSetKeyExGroups(&opts, &g, 1, 1); }
         else if (arg(argc, argv, "gids", NULL))
         {
